@@ -47,6 +47,32 @@ def gen_defs(r, tier):
     return ops
 
 
+def gen_torn(r, tier):
+    """the sensor monitor stores a new reading in the middle of an evaluation (right after the curve's first look at the
+    average): the result is the curve's function of a reading the sensor HAD - the old one, the new one, or between (seed
+    C06k: the average was read once for the range test and again for the interpolation). Oracle-only."""
+    ops = []
+    for _ in range(300 if tier == "quick" else 8000):
+        ops += ["#case torn", "cv.reset"]
+        mn = r.range(-20, 90)
+        mx = mn + r.range(1, 60)
+        if r.chance(0.7):
+            ops.append(f"cv.add id=L0 kind=linear sensor=s0 min={mn} max={mx} steps=nil")
+        else:
+            steps = streams.gen_steps(r, fractional=r.chance(0.4))
+            ops.append(f"cv.add id=L0 kind=linear sensor=s0 min=0 max=0 steps={streams.float_map_tok(steps)}")
+        for _ in range(r.range(1, 4)):
+            a = float(r.range(mn * 1000 - 2000, mx * 1000 + 2000))
+            b = r.pick([float(r.range(-40000, 160000)), float(r.range(mn * 1000 - 2000, mx * 1000 + 2000))])
+            ops.append(f"cv.sensor id=s0 avg={fx(a)} val={fx(a)}")
+            ops.append("cv.eval id=L0 now=1000")
+            ops.append(f"cv.sensor id=s0 avg={fx(b)} val={fx(b)}")
+            ops.append("cv.eval id=L0 now=1000")
+            ops.append(f"cv.sensor id=s0 avg={fx(a)} val={fx(a)} then={fx(b)}")
+            ops.append("cv.eval id=L0 now=1000")
+    return ops
+
+
 def parse_fmap(tok):
     if tok in ("nil", None):
         return None
@@ -78,7 +104,8 @@ class C06(Prop):
             "kinds, function types, member counts, result classes)")
     assumptions = ["non-finite sensor readings are C08's subject; a NaN PID term (two evaluations in one clock reading, or Inf-Inf from "
                    "overflowing gains) is the recorded known finding C06-pid-nan"]
-    streams = [Stream("curve", gen_curves, parallel=8), Stream("defs", gen_defs, parallel=8)]
+    streams = [Stream("curve", gen_curves, parallel=8), Stream("defs", gen_defs, parallel=8),
+               Stream("torn", gen_torn, parallel=4, exact=False, contract=lambda op, a, b: True)]
 
     def oracle(self, name, ops, go):
         out = []
@@ -141,6 +168,14 @@ class C06(Prop):
                     if c is None:
                         continue
                     vals[a["id"]] = v
+                    if name == "torn" and "then=" in cops[i - 1] and i >= 5 and cgo[i - 4].startswith("i") and cgo[i - 2].startswith("i"):
+                        # the two evaluations before this one gave the curve's values for the old and for the new reading
+                        va, vb = int(cgo[i - 4].split()[0][1:]), int(cgo[i - 2].split()[0][1:])
+                        if not (min(va, vb) <= v <= max(va, vb)):
+                            out.append(viol(f"curve {a['id']} = {v} while the sensor's average went from one reading to the next in the middle "
+                                            f"of the evaluation; the curve's values for the two readings are {va} and {vb}", cops, cgo, upto=i,
+                                            detail={"kind": "linear", "torn": True}))
+                            break
                     if not (0 <= v <= 255):
                         avg = sens.get(c.get("sensor"), {}).get("avg")
                         nan_in = avg is not None and bits2f(int(avg[1:], 16)) != bits2f(int(avg[1:], 16))
